@@ -313,6 +313,35 @@ def config_space_case(run, ps, rng, n, L, nthread, Nr, poles):
         return run.violation('config-space-binning', dict(problem='per-bin sum differs', kernel='bin_kppi', **desc))
 
 
+def accumulator_race_monitor(run, ps, rng):
+    """prange write-set monitor on the interpreted binning kernels: every array the kernel allocates is
+    write-logged; a cell updated by iterations that a static schedule puts on different logical threads is a race
+    (the per-thread accumulators must really be indexed by the thread id).  Decides all schedules from one run."""
+    from .. import hodrace
+
+    for n, nthread in ((6, 3), (8, 16), (5, 2), (7, 4)):
+        L = 100.0
+        kedges = edge_family(rng, 'notie', n, L, 3)
+        w = rng.random((n, n, n // 2 + 1))
+        for kern in ('bin_kmu', 'bin_kppi'):
+            fn, rec, npp = hodrace.monitored_threaded(getattr(ps, kern))
+            run.ev()
+            run.progress(dict(kernel=kern, monitor='write-set', n=n, nthread=nthread))
+            with warnings.catch_warnings():
+                warnings.simplefilter('ignore')
+                if kern == 'bin_kmu':
+                    fn(n, L, kedges, np.linspace(0, 1, 3), w, poles=np.array([0, 2, 4], dtype=np.int64), dtype=np.float64, nthread=nthread)
+                else:
+                    fn(n, L, kedges, kedges[-1], 3, w, dtype=np.float64, nthread=nthread)
+            conf = rec.thread_conflicts()
+            run.count('accumulator_cells_recorded', sum(len(c) for c in rec.regions))
+            run.nt(('write-set', kern, n, nthread))
+            if conf:
+                run.violation('accumulator-shared-between-threads', dict(kernel=kern, n=n, nthread=nthread, n_conflicting_cells=len(conf), example=conf[0]))
+    if not run.counters.get('accumulator_cells_recorded'):
+        run.note_inconclusive('accumulator write-set monitor recorded nothing')
+
+
 def thread_independence(run, ps, rng, n, L):
     kedges = edge_family(rng, 'notie', n, L, 6)
     muedges = np.linspace(0, 1, 4)
@@ -398,6 +427,7 @@ def check(run):
     for n in (range(2, 13) if run.quick else range(2, 33)):
         for rep in range(1 if run.quick else 3):
             config_space_case(run, ps, rng, n, [1.0, 250.0][n % 2], [1, 16, 3][n % 3], int(rng.integers(1, 7)), [(), (0, 2), (0, 2, 4)][n % 3])
+    accumulator_race_monitor(run, ps, rng)
     for n in ([5, 8, 12] if run.quick else [3, 5, 8, 9, 12, 16, 24, 31]):
         thread_independence(run, ps, rng, n, 100.0)
     for n in ([4, 7, 10] if run.quick else range(3, 20)):
